@@ -112,18 +112,26 @@ def takeFree (s : State) (b fd : Nat) : State × Slot :=
   let s := { s with pd := s.pd.set b fd pvd }
   (s, (b, fd))
 
-/-- the common tail of `Alloc` (from `const block_offset_t prev_data = …` on) -/
-def allocTail (s : State) (b fd nxd : Nat) : State × Slot :=
+/-- first half of the common tail of `Alloc` (from `const block_offset_t prev_data = …` on):
+    unlink `free_data` from the free ring, its successor becomes the free head -/
+def popFree (s : State) (b fd nxd : Nat) : State :=
   let pvd := s.pd.get b fd
   -- next_data[prev_data] = next_data; prev_data[next_data] = prev_data;
   let s := { s with nd := s.nd.set b pvd nxd }
   let s := { s with pd := s.pd.set b nxd pvd }
   -- free_data = next_data; has_free_data = true;
-  let s := { s with freeData := s.freeData.set b nxd, hasFree := s.hasFree.set b 1 }
+  { s with freeData := s.freeData.set b nxd, hasFree := s.hasFree.set b 1 }
+
+/-- `used_data = free_data; has_used_data = true; next_data[free_data] = prev_data[free_data] = free_data` -/
+def startUsed (s : State) (b fd : Nat) : State :=
+  { s with usedData := s.usedData.set b fd, hasUsed := s.hasUsed.set b 1,
+           nd := s.nd.set b fd fd, pd := s.pd.set b fd fd }
+
+/-- the common tail of `Alloc` -/
+def allocTail (s : State) (b fd nxd : Nat) : State × Slot :=
+  let s := popFree s b fd nxd
   if s.hasUsed.get b = 0 then
-    -- used_data = free_data; has_used_data = true; next_data[free_data] = prev_data[free_data] = free_data
-    ({ s with usedData := s.usedData.set b fd, hasUsed := s.hasUsed.set b 1,
-              nd := s.nd.set b fd fd, pd := s.pd.set b fd fd }, (b, fd))
+    (startUsed s b fd, (b, fd))
   else
     takeFree s b fd
 
@@ -175,6 +183,26 @@ def pushFree (s : State) (b i : Nat) : State :=
   let s := { s with pd := s.pd.set b i pvd }
   s
 
+/-- `Free`, slot with other used slots in its block: unlink it from the used ring, the successor
+    becomes the used head -/
+def unlinkUsed (s : State) (b i nxd : Nat) : State :=
+  let pvd := s.pd.get b i
+  -- next_data[prev_data] = next_data; prev_data[next_data] = prev_data;
+  let s := { s with nd := s.nd.set b pvd nxd }
+  let s := { s with pd := s.pd.set b nxd pvd }
+  -- used_data = next_data; has_used_data = true;
+  { s with usedData := s.usedData.set b nxd, hasUsed := s.hasUsed.set b 1 }
+
+/-- `free_data = used_data; has_free_data = true; prev_data[used_data] = next_data[used_data] = used_data` -/
+def startFree (s : State) (b i : Nat) : State :=
+  let s := { s with freeData := s.freeData.set b i, hasFree := s.hasFree.set b 1 }
+  let s := { s with pd := s.pd.set b i i }
+  { s with nd := s.nd.set b i i }
+
+/-- `if (m_FreeBlock) { --m_BlockCount; MEM::Free(m_FreeBlock); m_FreeBlock = nullptr; }` -/
+def dropFreeBlock (s : State) : State :=
+  if s.freeBlock ≠ 0 then { s with blockCount := s.blockCount - 1, freeBlock := 0 } else s
+
 /-- `BlockAlloc::Free` on the slot `(b, i)` (the pair the C++ computes from the address) -/
 def free (_bs : Nat) (s : State) (p : Slot) : State :=
   let b := p.1
@@ -183,18 +211,12 @@ def free (_bs : Nat) (s : State) (p : Slot) : State :=
   if nxd = i then
     -- the only used slot of its block
     let s := setUsedK s ((usedK s).remove b)
-    -- if (m_FreeBlock) { --m_BlockCount; MEM::Free(m_FreeBlock); m_FreeBlock = nullptr; }
-    let s := if s.freeBlock ≠ 0 then { s with blockCount := s.blockCount - 1, freeBlock := 0 } else s
+    let s := dropFreeBlock s
     -- m_FreeBlock = block; block->has_used_data = false;
     let s := { s with freeBlock := b, hasUsed := s.hasUsed.set b 0 }
     pushFree s b i
   else
-    let pvd := s.pd.get b i
-    -- next_data[prev_data] = next_data; prev_data[next_data] = prev_data;
-    let s := { s with nd := s.nd.set b pvd nxd }
-    let s := { s with pd := s.pd.set b nxd pvd }
-    -- used_data = next_data; has_used_data = true;
-    let s := { s with usedData := s.usedData.set b nxd, hasUsed := s.hasUsed.set b 1 }
+    let s := unlinkUsed s b i nxd
     if s.hasFree.get b ≠ 0 then
       pushFree s b i
     else
@@ -204,11 +226,7 @@ def free (_bs : Nat) (s : State) (p : Slot) : State :=
       -- m_StartFullBlock.Remove(block); m_StartUsedBlock.AddFirst(block);
       let s := setFullK s (k.remove b)
       let s := setUsedK s ((usedK s).addFirst b)
-      -- free_data = used_data; has_free_data = true; prev_data[used_data] = next_data[used_data] = used_data
-      let s := { s with freeData := s.freeData.set b i, hasFree := s.hasFree.set b 1 }
-      let s := { s with pd := s.pd.set b i i }
-      let s := { s with nd := s.nd.set b i i }
-      s
+      startFree s b i
 
 /-! ### `Count` and the set of live slots -/
 
@@ -280,10 +298,8 @@ def freeAll (bs : Nat) (dtor : State → Slot → List Slot) (s : State) : Optio
   let n := count bs s
   (drain bs dtor (fun s => s.full.root) n s []).bind fun r1 =>
   (drain bs dtor (fun s => s.used.root) n r1.1 r1.2).bind fun r2 =>
-  let s := r2.1
   -- if (m_FreeBlock) { m_BlockCount--; MEM::Free(m_FreeBlock); m_FreeBlock = nullptr; }
-  let s := if s.freeBlock ≠ 0 then { s with blockCount := s.blockCount - 1, freeBlock := 0 } else s
-  some (s, r2.2)
+  some (dropFreeBlock r2.1, r2.2)
 
 /-! ### histories -/
 
